@@ -419,6 +419,9 @@ LOOKALIKES = (
     ('"abc', 'T'), ("'a'", 'T'), ('nul', 'T'), ('None', 'T'), ('True', 'T'), ('1' * 100, 'T'), ('1' * 101, 'T'),
     ('-' + '1' * 101, 'T'), ('{"a":' + '1' * 101 + '}', 'T'), ('\x1e', 'T'), ('4', 'T'), ('', 'T'),
     ('1_0', 'T'), ('１２', 'T'), ('1 2', 'T'),
+    # not JSON: a raw control character inside the quotes (a strict parser refuses these), NaN / Infinity spellings
+    ('"a\tb"', 'T'), ('"line1\nline2"', 'T'), ('{"k":"a\tb"}', 'T'), ('["x\x00y"]', 'T'), ('"\x1f"', 'T'),
+    ('{"a":1,}', 'T'), ('[1,]', 'T'), ("{'a':1}", 'T'), ('{"a":1}x', 'T'), ('\ufeff{"a":1}', 'T'),
 )
 
 
